@@ -2,6 +2,7 @@
 from __future__ import annotations
 
 import ast
+import re
 from typing import Dict, List, Optional, Tuple
 
 from sa.index import ClassInfo, FuncInfo
@@ -113,6 +114,14 @@ def analyse_parser(ctx: Ctx, ci: ClassInfo, fi: FuncInfo) -> Dict[str, object]:
         info["lookup"] = "value" if member_side[0] in (valvar, f"{valvar}.value") else "name"
         info["needs_eq"] = member_side[0] == valvar
         info["normalise"] = _norm_of(q, param)
+        if info["normalise"] is None:
+            m_strip = re.search(r"\.(rstrip|lstrip|strip)\('([^']{2,})'\)", strip_v(q).replace(" ", ""))
+            if m_strip:
+                ctx.violate("C20-exact-match", short(fi.qualname) if "short" in globals() else fi.qualname.split("schema.", 1)[-1], "query-strips-character-set",
+                            f"the query is normalised by `{q}`: str.{m_strip.group(1)}('{m_strip.group(2)}') removes any of the CHARACTERS {sorted(set(m_strip.group(2)))} from the end/start, not the suffix; "
+                            "member values that end in those letters no longer parse back to themselves (or parse to another member)", fi=fi, expected="name.lower()", found=q)
+                info.update({"lookup": "value", "needs_eq": member_side[0] == valvar, "normalise": "lower", "returns": "member", "ret_text": "?", "nonmember": ["raise"], "broken": True})
+                return info
         ctx.require(info["normalise"] is not None, f"{fi.qualname}: query side `{q}` is not a recognised normalisation of `{param}`")
         rv = strip_v(U(bp.retval)) if bp.retval is not None else "None"
         info["returns"] = "member" if rv == valvar else "key" if keyvar and rv == keyvar else f"other:{rv}"
@@ -344,3 +353,4 @@ def run(ctx: Ctx) -> None:
     from rules import C18
 
     ctx.run(C18.rule_keys)  # transform keys behave identically for both spellings
+    ctx.run(C18.rule_registry)  # ... including the X-to-X shortcut, which must compare NORMALISED keys
